@@ -43,7 +43,9 @@ C02Clause(ev) ==
       [] OTHER -> "ok"
 C02Attrs(ev) ==
     \* the stack representation never consults a refinement (it calls the annotated alias): one signature
-    CASE ev.e = "produced" /\ ev.rep = "stack" -> <<"refinement-never-consulted", "stack">>
+    \* (for grammars whose refinements are declared as objects; with postponed - string - annotations the stack
+    \*  machine does look for a value that satisfies the refinement, and is judged like every other representation)
+    CASE ev.e = "produced" /\ ev.rep = "stack" /\ Cfg.annot = "objects" -> <<"refinement-never-consulted", "stack">>
       [] ev.e = "produced" -> RefBad(ev.prog, StartForm(G), G, <<>>, "top") \o <<ev.rep>>
       [] ev.e = "validate" -> <<ev.mh, ev.exc>>
       [] OTHER -> <<>>
